@@ -324,6 +324,12 @@ where
                             return Err(e);
                         }
                         Ok(size) => {
+                            if size == 0 {
+                                // a sink that accepts nothing would otherwise be retried forever
+                                BrotliEncoderDestroyInstance(s);
+                                read_err?;
+                                return Err(unexpected_eof_error_constant);
+                            }
                             next_out_offset += size;
                         }
                     }
